@@ -58,6 +58,7 @@ func (e *fnEnc) call(v ssa.Value, c *ssa.CallCommon, instr ssa.Instruction) {
 	e.siteAsserts(v, c, instr, true)
 	e.call0(v, c, instr)
 	e.recordResult(v, c, instr)
+	e.recordSnapshots(c, instr)
 	e.siteAsserts(v, c, instr, false)
 }
 
@@ -89,6 +90,47 @@ func (e *fnEnc) recordResult(v ssa.Value, c *ssa.CallCommon, instr ssa.Instructi
 			e.resTypes = map[string]types.Type{}
 		}
 		e.resTypes[site] = res.At(0).Type()
+	}
+}
+
+// snapKey is the ghost cell of snapshot("site", expr): the value of expr right after that call site last executed.
+func snapKey(site, expr, sort string) HeapKey { return HeapKey{Name: "SNAP!" + mangle(site+"|"+expr), Sort: sort} }
+
+// recordSnapshots evaluates, right after a call whose site the contract names in snapshot("name#k", e), each such e in
+// the state the call left and stores it in its ghost cell.
+func (e *fnEnc) recordSnapshots(c *ssa.CallCommon, instr ssa.Instruction) {
+	if !e.top || e.contract == nil || len(e.contract.Snaps) == 0 {
+		return
+	}
+	for _, n := range e.callNames(c) {
+		site := fmt.Sprintf("%s#%d", n, e.siteOrdinal(instr, n))
+		exprs := e.contract.Snaps[site]
+		if len(exprs) == 0 {
+			continue
+		}
+		for _, li := range e.loops {
+			if li.body[e.curBlk] {
+				e.fail("snapshot(%q, ...): the call site lies inside a loop (not supported)", site)
+			}
+		}
+		idx := -1
+		for k, in := range e.curBlk.Instrs {
+			if in == instr {
+				idx = k
+			}
+		}
+		blk := e.curBlk
+		for _, ex := range exprs {
+			env := e.newEnv()
+			env.heapAt = e.cur
+			env.oldHeap = e.entryHeap
+			env.lookup = func(name string) (TV, bool) { return e.varAtIdx(name, blk, idx+1, nil, e.cur) }
+			tv, err := env.Term(ex)
+			if err != nil {
+				e.fail("snapshot(%q, %s): %v", site, ex.String(), err)
+			}
+			e.setHeap(snapKey(site, ex.String(), tv.Sort), tv.T)
+		}
 	}
 }
 
